@@ -678,3 +678,7 @@ func EvalAgg(a *Agg, rows []Row, o EvalOpts) (Value, error) {
 	}
 	return Value{}, undefined("unknown aggregate " + a.Fn)
 }
+
+// CutAmbiguous reports whether this level's LIMIT cuts through rows the ORDER BY does not order
+// (a tie group of non-identical rows, or no ORDER BY at all): the choice of rows is then open.
+func (r *Result) CutAmbiguous() bool { return cutAmbiguous(r.Full, r.OrderBy, r.Limit) }
